@@ -14,7 +14,7 @@ FORMULAS = {
     "C05": {"inv": ["C05Result"], "props": ["C05"], "mc_props": ["C05"], "mc_inv": ["C05Result"]},
     "C06": {"inv": ["C06Done"], "props": ["C06"], "mc_props": ["C06"], "mc_inv": ["C06Done"]},
     "C07": {"inv": [], "props": ["C07"], "mc_props": ["C07"], "mc_inv": []},
-    "C08": {"inv": ["C08Range", "C08Done"], "props": ["C08"], "mc_props": ["C08"],
+    "C08": {"inv": ["C08Range", "C08Exact", "C08Done"], "props": ["C08"], "mc_props": ["C08"],
             "mc_inv": ["C08Range", "C08Done"]},
     "C18": {"inv": ["C18Finish"], "props": ["C18"], "mc_props": ["C18"], "mc_inv": ["C18Finish"]},
     "C19": {"inv": ["C19Cap", "C19Rel"], "props": ["C19"], "mc_props": ["C19"], "mc_inv": ["C19Cap"]},
@@ -249,6 +249,18 @@ def run_check(ctx):
             if ("loop" in f["state"]) == (pid == "C18"):
                 rp = vp.save_replay(pid, "frequency_seed%d" % seed, {"property": pid, "formula": "frequency", "failures": [f]})
                 violations.append(("frequency", f["what"], rp))
+    initial = None
+    if pid == "C08":
+        # every supported group with any shape of well-defined area starts from a valid state
+        ires = os.path.join(out, "initial.json")
+        vp.pvh(["initial-states", "--out", ires])
+        ir = json.load(open(ires))
+        initial = {"initial_states_checked": ir["initial_states_checked"],
+                   "rule": "7 groups x (polygons 3..12, circle, 80 trimers) x {hard, LJ}: defined finite score, parameters inside the declared ranges, cell family of the group"}
+        for f in ir["first_failures"][:3]:
+            rp = vp.save_replay(pid, "initial_seed%d" % seed, {"property": pid, "formula": "initial state", "failures": [f]})
+            violations.append(("initial state", f["what"] + " " + f["state"]["state"], rp))
+            break
     induction = None
     if tier == "thorough" and pid in ("C06", "C08"):
         induction = apalache_induction(pid)
@@ -282,6 +294,7 @@ def run_check(ctx):
         "cli_clause": cli,
         "frequency_side_check": freq,
         "script_replay": scripts,
+        "initial_states": initial,
         "apalache_inductive_invariant": induction,
         "states": states, "transitions": transitions,
         "traces_validated_against_impl": nruns,
